@@ -27,7 +27,7 @@ def cases(draw, tier):
     d = D(draw)
     # the batch rules exclude several candidates on an arithmetic argument about pending surpluses: the likeliest way for a
     # coalition to lose a seat it is entitled to, so they get three times the weight
-    rules = model.ALL_RULES + ('wigm-prf-batch', 'cfer-batch', 'mpls') * 2
+    rules = model.ALL_RULES + ('wigm-prf-batch', 'cfer-batch', 'mpls') * 2 + ('scotland',)     # scotland: ballot-by-ballot transfer, own tie-break by prior stages
     case = draw(gen.election_cases(tier=tier, rules=rules, undeclared_for_mpls=False, equal_for_meek=False, min_cand=3))
     nc = case['ncand']
     el = model.eligible(case)
@@ -49,7 +49,7 @@ def cases(draw, tier):
         # coalition size just above / below k quotas of the final total (solve t = k*(n0+t)/(s+1) + eps)
         target = Fraction(k * n0, s + 1 - k) if s + 1 - k > 0 else Fraction(n0)
         base = int(target)
-        if s + 1 - k > 0 and d.p(50):
+        if s + 1 - k > 0 and (skew or d.p(50)):
             # rules whose quota is a whole number (votes // (seats+1) + 1: mpls, cfer, scotland, integer arithmetic) put the
             # boundary up to k*(s+1)/(s+1-k) ballots higher than the fractional solution
             while not base > k * ((n0 + base) // (s + 1) + 1):
@@ -70,15 +70,39 @@ def cases(draw, tier):
             # exclusions only if BOTH pending surpluses are credited to them when sure losers are batched
             order = d.perm(S)
             strong, weak = order[:2], order[2:]
+            if rest and d.p(40):
+                # concentrated opposition: the background ballots that start outside the coalition all lead with one outsider,
+                # who then stands between the weak members' own votes plus one surplus and the same plus both
+                x = d.choice([c for c in rest if c in el] or rest)
+                for bl in case['ballots']:
+                    if bl[1] and bl[1][0] and bl[1][0][0] not in S:
+                        bl[1] = [[x]] + [rk for rk in bl[1] if rk != [x]]
+                case['opposition_concentrated'] = True
             left = t
             for w in weak:
-                m = d.int(1, 4)
+                m = d.int(0, max(1, min(4, t // (8 * len(weak)))))     # a handful at most, so that the strong pair stay over the quota
+                if m == 0:
+                    continue
                 if left - m < 2:
                     break
                 left -= m
                 r = [w] + d.perm([c for c in S if c != w]) + d.sample(rest, d.int(0, len(rest)))
                 case['ballots'].append([m, [[c] for c in r]])
-            a = left // 2 + d.int(-2, 2) if left >= 8 else left // 2
+            if d.p(40):
+                # the two strong members exactly tied: their surpluses are equal, and which is transferred first is a tie-break
+                # (first preferences of the background ballots are levelled out)
+                bg = {}
+                for m0, r0 in model.kept_ballots(case):
+                    bg[r0[0][0]] = bg.get(r0[0][0], 0) + m0
+                diff = bg.get(strong[1], 0) - bg.get(strong[0], 0)
+                left += (left + diff) % 2
+                a = (left + diff) // 2
+                if 0 < a < left:
+                    case['strong_tied'] = True
+                else:
+                    a = left // 2
+            else:
+                a = left // 2 + d.int(-2, 2) if left >= 8 else left // 2
             for lead, m in ((strong[0], a), (strong[1], left - a)):
                 if m > 0:
                     tail = d.perm(weak) + [c for c in strong if c != lead] if d.p(60) else d.perm([c for c in S if c != lead])
@@ -161,6 +185,8 @@ def check(case):
         res.tag('coalition-members-tied')
     if case.get('skewed'):
         res.tag('coalition-two-strong-rest-weak')
+    if case.get('strong_tied'):
+        res.tag('coalition-two-strong-tied')
     if vac:
         res.tag('vacuous-integer')
     if near:
